@@ -177,12 +177,19 @@ fn run_traj<F: Float, D: Distance<F>>(inp: &Value, dist: D) -> Vec<Value> {
     // every restart starts from the same precomputed centroids, so n_runs > 1 must not change anything
     let nruns = geti(inp, "nruns") as usize;
     let mut out = Vec::new();
-    for m in ivec(&inp["ms"]) {
+    // small budgets (event "fit", field m), then budgets of 2^32 and more given as decimal strings
+    // (event "fitx", field hm): u64 values that neither JSON integers of the trace nor TLC can hold
+    let mut budgets: Vec<(u64, Option<String>)> = ivec(&inp["ms"]).into_iter().map(|m| (m as u64, None)).collect();
+    for h in geta(inp, "hms") {
+        let sv = h.as_str().expect("hms entries are strings");
+        budgets.push((sv.parse::<u64>().expect("u64 budget"), Some(sv.to_string())));
+    }
+    for (m, hm) in budgets {
         let params = KMeans::params_with(k, Xoshiro256Plus::seed_from_u64(7), dist.clone())
             .init_method(KMeansInit::Precomputed(c0.clone()))
             .n_runs(nruns)
             .tolerance(tol_of::<F>(inp))
-            .max_n_iterations(m as u64);
+            .max_n_iterations(m);
         let res = guarded(|| {
             if lp.owned() {
                 params.fit(&DatasetBase::from(lp.back.clone()))
@@ -191,8 +198,16 @@ fn run_traj<F: Float, D: Distance<F>>(inp: &Value, dist: D) -> Vec<Value> {
             }
         });
         let mut o = vh::serde_json::Map::new();
-        o.insert("ev".into(), json!("fit"));
-        o.insert("m".into(), json!(m));
+        match &hm {
+            None => {
+                o.insert("ev".into(), json!("fit"));
+                o.insert("m".into(), json!(m));
+            }
+            Some(sv) => {
+                o.insert("ev".into(), json!("fitx"));
+                o.insert("hm".into(), json!(sv));
+            }
+        }
         match res {
             Err(msg) => {
                 out.push(panic_event("fit", &msg));
